@@ -21,6 +21,9 @@ type c20CLICase struct {
 	N    int    `json:"n"`
 	Seed int    `json:"seed"`
 	Out  string `json:"out"` // stdout | file | file.gz
+	// More: the input is a Phylip file of several alignments; the first has L sites, the following ones these
+	// many ("If the input alignment contains several alignments, will process the first one only")
+	More []int `json:"more_alignments,omitempty"`
 }
 
 func c20CheckCLI(c *mc.Ctx, box *cliBox, cs c20CLICase) {
@@ -28,17 +31,30 @@ func c20CheckCLI(c *mc.Ctx, box *cliBox, cs c20CLICase) {
 	viol := func(clause, desc string) {
 		c.Violation("C20/cli-weightboot/"+clause, fmt.Sprintf("%s: case %s", desc, jsonStr(cs)), cs)
 	}
+	maxL := cs.L
+	for _, l := range cs.More {
+		maxL = max(maxL, l)
+	}
 	row := func(k int) string {
-		b := make([]byte, cs.L)
+		b := make([]byte, maxL)
 		for j := range b {
 			b[j] = "ACGT"[(j*(k+1)+j/3)%4]
 		}
 		return string(b)
 	}
-	if !box.put(c, "in.fa", cliFasta(rowNames, []string{row(0), row(1), row(2)})) {
+	args := []string{"build", "weightboot", "-i", "@in.fa", "-n", strconv.Itoa(cs.N), "--seed", strconv.Itoa(cs.Seed)}
+	if len(cs.More) > 0 {
+		var ph strings.Builder
+		for _, l := range append([]int{cs.L}, cs.More...) {
+			ph.WriteString(cliPhylip([]string{row(0)[:l], row(1)[:l], row(2)[:l]}))
+		}
+		if !box.put(c, "in.phy", ph.String()) {
+			return
+		}
+		args = []string{"build", "weightboot", "-p", "-i", "@in.phy", "-n", strconv.Itoa(cs.N), "--seed", strconv.Itoa(cs.Seed)}
+	} else if !box.put(c, "in.fa", cliFasta(rowNames, []string{row(0), row(1), row(2)})) {
 		return
 	}
-	args := []string{"build", "weightboot", "-i", "@in.fa", "-n", strconv.Itoa(cs.N), "--seed", strconv.Itoa(cs.Seed)}
 	var out string
 	var err error
 	var pn, herr bool
@@ -117,6 +133,12 @@ func c20CLITasks() []mc.Task {
 			return
 		}
 		defer box.close()
+		// several alignments in the input: the first one only is processed
+		for _, more := range [][]int{{25, 7}, {7}, {10}} {
+			for seed := 1; seed <= 2; seed++ {
+				c20CheckCLI(c, box, c20CLICase{CLI: true, L: 10, N: 2, Seed: seed, Out: "stdout", More: more})
+			}
+		}
 		for _, L := range []int{3, 4, 10, 100, 455, 456, 700, 2000, 7000, 7500, 30000} { // long lines: several write buffers per line // 9 bytes per weight: 455/456 straddle 4096 bytes per line
 			for _, n := range []int{1, 2, 5} {
 				for _, out := range []string{"stdout", "file", "file.gz"} {
